@@ -114,3 +114,99 @@ class ProcInstancePush:
     def post_start_time(self, proc_stats, old):
         """the times series counts from the first sample ever pushed"""
         return self.ref_start_time == ite(bool(old.self.ref_stats), old.self.ref_start_time, proc_stats['now'])
+
+
+# ---------------------------------------------------------------------------------------------- instant statistics
+def cpu_value(latest, ref):
+    """CPU load between two (work, idle) jiffies samples, in percent"""
+    work = latest[0] - ref[0]
+    total = work + latest[1] - ref[1]
+    return ite(total == 0, 0.0, 100.0 * work / total)
+
+
+@contract('statscompiler:cpu_statistics', props=['C20'])
+class CpuStatistics:
+    """'CPU percentages computed from non-decreasing counters lie in [0,100] per core' (DESIGN C20.4: each value in
+    [0, 100], total = 0 => 0)"""
+    raises = ()
+    types = {'cpu': 'List[float]'}
+
+    def modifies():
+        return []
+
+    def post_fresh(result):
+        return was_fresh(result)
+
+    def post_one_value_per_common_core(latest_values, ref_values, result):
+        """zip(): the shorter of the two samples decides (a sample with fewer CPU entries is silently truncated)"""
+        return len(result) == ite(len(latest_values) <= len(ref_values), len(latest_values), len(ref_values))
+
+    def post_values(latest_values, ref_values, result):
+        return forall(int, lambda j: implies(0 <= j and j < len(result),
+                                             result[j] == cpu_value(latest_values[j], ref_values[j])))
+
+    def post_percent(latest_values, ref_values, result):
+        return forall(int, lambda j: implies(
+            0 <= j and j < len(result)
+            and ref_values[j][0] <= latest_values[j][0] and ref_values[j][1] <= latest_values[j][1],
+            0 <= result[j] and result[j] <= 100))
+
+    def loop0_modifies(cpu):
+        return [contents(cpu)]
+
+    def loop0_inv(k, cpu, latest_values, ref_values):
+        return (was_fresh(cpu) and len(cpu) == k
+                and forall(int, lambda j: implies(0 <= j and j < k, cpu[j] == cpu_value(latest_values[j], ref_values[j]))))
+
+
+def io_counted(k, last_values, ref_values):
+    """interface present in both samples and neither counter wrapped"""
+    return (k in last_values and k in ref_values
+            and ref_values[k][0] <= last_values[k][0] and ref_values[k][1] <= last_values[k][1])
+
+
+def io_entry_ok(io_stats, k, last_values, ref_values, duration):
+    return (len(io_stats[k]) == 2
+            and io_stats[k][0] == (last_values[k][0] - ref_values[k][0]) / duration / 128
+            and io_stats[k][1] == (last_values[k][1] - ref_values[k][1]) / duration / 128)
+
+
+def io_lists_fresh_and_distinct(io_stats):
+    return forall(str, str, lambda a, b: implies(a in io_stats, was_fresh(io_stats[a]) and is_alloc(io_stats[a]) and implies(
+        b in io_stats and a != b, io_stats[a] is not io_stats[b])))
+
+
+@contract('statscompiler:io_statistics', props=['C20'])
+class IoStatistics:
+    """'I/O rates are finite and non-negative' (DESIGN C20.4: duration > 0 => rates >= 0 and finite, only keys present
+    in both samples with non-decreasing counters: a wrapped counter or a vanished / new interface gives no rate)"""
+    raises = ()
+    types = {'io_stats': 'Dict[str, List[float]]'}
+
+    def modifies():
+        return []
+
+    def pre_duration(duration):
+        """call site integrate(): duration = now - ref.now >= period > 0 (period gate)"""
+        return duration > 0
+
+    def post_fresh(result):
+        return was_fresh(result) and io_lists_fresh_and_distinct(result)
+
+    def post_keys(last_values, ref_values, result):
+        return forall(str, lambda k: (k in result) == io_counted(k, last_values, ref_values))
+
+    def post_rates(last_values, ref_values, duration, result):
+        return forall(str, lambda k: implies(k in result, io_entry_ok(result, k, last_values, ref_values, duration)))
+
+    def post_non_negative(result):
+        return forall(str, lambda k: implies(k in result, result[k][0] >= 0 and result[k][1] >= 0))
+
+    def loop0_modifies(io_stats):
+        return [contents(io_stats)]
+
+    def loop0_inv(seen, io_stats, last_values, ref_values, duration):
+        return (was_fresh(io_stats) and io_lists_fresh_and_distinct(io_stats)
+                and forall(str, lambda k: (k in io_stats) == (k in seen and io_counted(k, last_values, ref_values)))
+                and forall(str, lambda k: implies(k in io_stats,
+                                                  io_entry_ok(io_stats, k, last_values, ref_values, duration))))
